@@ -84,6 +84,7 @@ def setup() -> None:
     T.install_deep(T.module_functions(E) + T.module_functions(L) + T.module_functions(U, exclude_classes=[U.LRUCache]))
     U.Lock = T.SimLock
     T.neutralise_real_locks()
+    T.install_threading_factories()
     _setup_done = True
 
 
